@@ -579,6 +579,11 @@ func runC06R5(c *Ctx) {
 	}
 	alphabet := []string{"/", "\\", ".", " ", "\t", "\n", "\r", "\v", "\f", "a", "?", "#", "%", "@", ":"}
 	maxLen := 5
+	if c.Tier == "thorough" {
+		// deeper exploration: all strings up to length 6 over the same alphabet plus non-ASCII space and NUL
+		alphabet = append(alphabet, "\u00a0", "\x00", "\u2028")
+		maxLen = 6
+	}
 	total, accepted := 0, 0
 	witness := ""
 	var gen func(prefix string, n int)
